@@ -522,6 +522,55 @@ Proof using All.
     unfold iban_validate. rewrite Hok. reflexivity.
 Qed.
 
+
+(* acceptance with national validation = ISO 13616 validity and an accepting national check *)
+Lemma run_steps_true_ok s : forall l,
+  nat_last l = true -> existsb (fun st => match st with SNational => true | _ => false end) l = true ->
+  (run_steps e cfg T national true s l = Ok tt <->
+   run_steps e cfg T national false s l = Ok tt /\ exists v, national (iban_country_code s) (iban_bban e s) = Ok v).
+Proof.
+  induction l as [|st l IH]; intros Hl Hin; [discriminate|]. cbn [run_steps].
+  assert (Hcase : st = SNational \/ (st <> SNational /\ run_step e cfg T national true s st = run_step e cfg T national false s st /\ nat_last l = true)).
+  { destruct st; try (right; split; [discriminate|split; [reflexivity|destruct l; exact Hl]]). left; reflexivity. }
+  destruct Hcase as [->|(Hne & Hsame & Hl')].
+  - destruct l as [|st' l']; [|cbn [nat_last] in Hl; discriminate].
+    cbn [run_step run_steps bind].
+    destruct (national (iban_country_code s) (iban_bban e s)) as [v|x|x]; cbn [bind]; split; intro H.
+    + split; [reflexivity|exists v; reflexivity].
+    + reflexivity.
+    + discriminate.
+    + destruct H as [_ [v Hv]]. discriminate.
+    + discriminate.
+    + destruct H as [_ [v Hv]]. discriminate.
+  - rewrite Hsame. assert (Hin' : existsb (fun st0 => match st0 with SNational => true | _ => false end) l = true).
+    { cbn [existsb] in Hin. destruct st; try exact Hin. congruence. }
+    destruct (run_step e cfg T national false s st) as [[]|x|x]; cbn [bind].
+    + exact (IH Hl' Hin').
+    + split; [discriminate|intros [H _]; discriminate].
+    + split; [discriminate|intros [H _]; discriminate].
+Qed.
+
+Theorem iban_accept_b s :
+  nat_last (ic_steps cfg) = true ->
+  existsb (fun st => match st with SNational => true | _ => false end) (ic_steps cfg) = true ->
+  cleaned e s = true ->
+  (iban_validate e cfg T national true s = Ok true <->
+   iso_ok T s = true /\ exists v, national (iban_country_code s) (iban_bban e s) = Ok v).
+Proof using All.
+  intros Hl Hin Hcl. unfold iban_validate.
+  pose proof (run_steps_true_ok s (ic_steps cfg) Hl Hin) as R.
+  pose proof (validate_iff e cfg T national WF CFG TAB s Hcl) as V. unfold iban_validate in V.
+  destruct (run_steps e cfg T national true s (ic_steps cfg)) as [[]|x|x]; cbn [bind].
+  - destruct (proj1 R eq_refl) as [Hf Hn]. split; [intros _|reflexivity]. split; [|exact Hn].
+    apply V. rewrite Hf. reflexivity.
+  - split; [discriminate|]. intros [Hi Hn]. apply V in Hi.
+    destruct (run_steps e cfg T national false s (ic_steps cfg)) as [[]|y|y] eqn:Ef; cbn [bind] in Hi; try discriminate.
+    pose proof (proj2 R (conj eq_refl Hn)) as Hc. discriminate.
+  - split; [discriminate|]. intros [Hi Hn]. apply V in Hi.
+    destruct (run_steps e cfg T national false s (ic_steps cfg)) as [[]|y|y] eqn:Ef; cbn [bind] in Hi; try discriminate.
+    pose proof (proj2 R (conj eq_refl Hn)) as Hc. discriminate.
+Qed.
+
 End Named.
 
 Section BicNamed.
